@@ -654,8 +654,11 @@ class PybindWrapper:
                     includes += includes_namespace
 
                 elif isinstance(element, instantiator.InstantiatedClass):
-                    wrapped += self.wrap_instantiated_class(element)
-                    wrapped += self.wrap_enums(element.enums, element)
+                    wrapped_class = self.wrap_instantiated_class(element)
+                    wrapped += wrapped_class
+                    # An ignored class yields no block: skip its enums as well.
+                    if wrapped_class:
+                        wrapped += self.wrap_enums(element.enums, element)
 
                 elif isinstance(element, instantiator.InstantiatedDeclaration):
                     wrapped += self.wrap_instantiated_declaration(element)
